@@ -59,25 +59,35 @@ MORE_EVENTS = [
     ("det", {"axis": 0}),
 ]
 
+# (class, channels per dataset, reference lists, dtype of the user's records); integer / float32 records are legal input:
+# the scipy operations promote them to float64 and the setup must do exactly the same
 KINDS_QUICK = [
-    ("single", [3], None),
-    ("preger", [3], [[1]]),
-    ("preger", [3, 2], [[2, 0], [1]]),
-    ("preger", [4, 3, 2], [[3], [2], [0]]),
+    ("single", [3], None, "float64"),
+    ("preger", [3], [[1]], "float64"),
+    ("preger", [3, 2], [[2, 0], [1]], "float64"),
+    ("preger", [4, 3, 2], [[3], [2], [0]], "float64"),
+    ("single", [2], None, "int16"),
 ]
 KINDS_MORE = [
-    ("preger", [5, 4], [[0, 1], [0, 1]]),
-    ("preger", [5, 3, 4], [[4, 3], [2, 1], [1, 0]]),
-    ("single", [2], None),
+    ("preger", [5, 4], [[0, 1], [0, 1]], "float64"),
+    ("preger", [5, 3, 4], [[4, 3], [2, 1], [1, 0]], "float64"),
+    ("single", [2], None, "float64"),
+    ("preger", [3, 2], [[0, 2], [1]], "float32"),
+    ("preger", [2, 3], [[1], [0]], "int64"),
 ]
 
 
-def make_data(seed, kind_idx, nchs):
+def make_data(seed, kind_idx, nchs, dtype="float64"):
     out = []
     t = np.arange(N)[:, None]
     for j, nch in enumerate(nchs):
         x = payload.normal(seed, f"c14/{kind_idx}/{j}", (N, nch))
-        out.append(x + 0.001 * t * (1 + 0.1 * np.arange(nch)) + 3.0 + np.arange(nch))
+        x = x + 0.001 * t * (1 + 0.1 * np.arange(nch)) + 3.0 + np.arange(nch)
+        if dtype.startswith("int"):
+            x = np.round(40.0 * x).astype(dtype)       # raw counts
+        else:
+            x = x.astype(dtype)
+        out.append(x)
     return out
 
 
@@ -179,7 +189,7 @@ def probe_cls():
 def build(kind, user):
     from pyoma2.setup import MultiSetup_PreGER, SingleSetup
 
-    k, nchs, ref = kind
+    k, nchs, ref = kind[0], kind[1], kind[2]
     if k == "single":
         return SingleSetup(user[0], FS0)
     return MultiSetup_PreGER(fs=FS0, ref_ind=[list(r) for r in ref], datasets=user)
@@ -313,7 +323,7 @@ def run_history(kind_idx, kind, events, hist, seed, judge_all=False):
     """Replay `hist` (event indices) on a fresh object and the model; judge the last transition
     (all of them if judge_all). Returns (Tally, canonical key or None when exploration stops here)."""
     t = Tally()
-    base = make_data(seed, kind_idx, kind[1])
+    base = make_data(seed, kind_idx, kind[1], kind[3] if len(kind) > 3 else "float64")
     user = [d.copy() for d in base]
     user_h = [canon.arr_digest(d) for d in user]
     o = build(kind, user if kind[0] != "single" else user)
@@ -424,7 +434,7 @@ def explore(ctx):
     }
     for ki, kind in enumerate(kinds):
         _CFG.update(kind_idx=ki, kind=kind, events=events, seed=ctx.seed)
-        label = f"{kind[0]}{len(kind[1])}/"
+        label = f"k{ki}:{kind[0]}{len(kind[1])}:{kind[3] if len(kind) > 3 else ""}/"
         seen = bfs.merged(ctx, _runner, len(events), depth, label=label)
         if ki == 0:
             for k, h in list(seen.items())[:3] + list(seen.items())[-3:]:
@@ -443,7 +453,7 @@ def explore(ctx):
 
 
 def replay(case):
-    kind = (case["kind"][0], case["kind"][1], case["kind"][2])
+    kind = tuple(case["kind"])
     evs = [tuple(tuple(x) if isinstance(x, list) else x for x in e) for e in case["events"]]
     t, _ = run_history(case["kind_idx"], kind, evs, tuple(range(len(evs))), case["seed"], judge_all=True)
     return t
